@@ -5,7 +5,7 @@ From Coq Require Import ZArith List Bool Reals PrimFloat.
 From FT.lib Require Import Num Arr ArrLemmas NumArr.
 From FT.gen Require Import Common Interp2d Interp3d Vinterp2d Vinterp3d Fteik2d Fteik3d Ray2d Ray3d.
 From FT.proofs Require Import NumFLaws SafetyTools Safety2d SafetyInterp Ray2dProofs.
-From FT.proofs Require Safety3d Ray3dProofs RaySafety2d RaySafety3d.
+From FT.proofs Require Safety3d Ray3dProofs RaySafety2d RaySafety3d SafetySolveTools SafetySolve2d SafetySolve3d.
 Import ListNotations.
 Open Scope Z_scope.
 
@@ -363,6 +363,81 @@ Theorem C12_ray_max_step_0_refuted :
          0.5%float 0.5%float 0%float 0%float 0.25%float 0 false = false.
 Proof. exact @RaySafety2d.ray2d_core_ok_max_step_0_refuted. Qed.
 
+(* the WHOLE 2D solver (domain test, source cell lookup, both initialisation branches with all four loops and the admissibility guards, nsweep passes, gradient assembly) performs only in-range accesses, for every model with >= 1 cell per axis, positive spacings, every source (an outside source raises before any access), nsweep and flag - for every numeric instance satisfying TruncLaws (truncation of a non-negative quotient is non-negative; the rounded quotient of an in-domain source is a node index) *)
+Theorem C12_solve2d_ok :
+  forall (T : Type) (H : Num T) (TruncLaws0 : SafetySolveTools.TruncLaws T) (slow : arr T) 
+         (dz dx zsrc xsrc : T) (nsweep : Z) (grad : bool) (nz nx : Z),
+       shape slow = [nz; nx] ->
+       1 <= nz ->
+       1 <= nx ->
+       SafetySolveTools.cells_ok nz ->
+       SafetySolveTools.cells_ok nx ->
+       nltb (nofZ 0) dz = true ->
+       nltb (nofZ 0) dx = true -> fteik2d_ok true false slow dz dx zsrc xsrc nsweep grad = true.
+Proof. exact @SafetySolve2d.fteik2d_ok_true. Qed.
+
+(* the real-number instance satisfies TruncLaws *)
+Theorem C12_solve2d_ok_reals :
+  forall (slow : arr R) (dz dx zsrc xsrc : R) (nsweep : Z) (grad : bool) (nz nx : Z),
+       shape slow = [nz; nx] ->
+       1 <= nz -> 1 <= nx -> (0 < dz)%R -> (0 < dx)%R -> fteik2d_ok true false slow dz dx zsrc xsrc nsweep grad = true.
+Proof. exact @SafetySolve2d.fteik2d_ok_true_R. Qed.
+
+(* the whole 3D solver, every numeric instance satisfying TruncDivLaw *)
+Theorem C12_solve3d_ok :
+  forall (T : Type) (H : Num T),
+       SafetySolveTools.TruncDivLaw T ->
+       forall (slow : arr T) (dz dx dy zsrc xsrc ysrc : T) (nsweep : Z) (grad : bool) (nz nx ny : Z),
+       shape slow = [nz; nx; ny] ->
+       1 <= nz ->
+       1 <= nx ->
+       1 <= ny ->
+       nltb (nofZ 0) dz = true ->
+       nltb (nofZ 0) dx = true ->
+       nltb (nofZ 0) dy = true -> fteik3d_ok true false slow dz dx dy zsrc xsrc ysrc nsweep grad = true.
+Proof. exact @SafetySolve3d.fteik3d_ok_true. Qed.
+
+(* binary64 satisfies TruncDivLaw (NaN and infinities included): the 3D statement is unconditional for the floats the code runs on *)
+Theorem C12_solve3d_ok_binary64 :
+  forall (slow : arr float) (dz dx dy zsrc xsrc ysrc : float) (nsweep : Z) (grad : bool) (nz nx ny : Z),
+       shape slow = [nz; nx; ny] ->
+       1 <= nz ->
+       1 <= nx ->
+       1 <= ny ->
+       (f_ofZ 0 <? dz)%float = true ->
+       (f_ofZ 0 <? dx)%float = true ->
+       (f_ofZ 0 <? dy)%float = true -> fteik3d_ok true false slow dz dx dy zsrc xsrc ysrc nsweep grad = true.
+Proof. exact @SafetySolve3d.fteik3d_ok_true_F. Qed.
+
+(* the law itself *)
+Theorem C12_trunc_div_law_binary64 :
+  SafetySolveTools.TruncDivLaw float.
+Proof. exact @SafetySolveTools.TruncDivLawF. Qed.
+
+(* for binary64 the second law (2D on-node branch tt[int(zsa), int(xsa)] = 0) is false without a bound on the number of cells: n = 2^53+3, d = 1, z = 2^53+4 passes the domain test and indexes node n+1 (witness by vm_compute; such grids do not fit in memory; the law for n <= 2^51 is not proved = the one open obligation of the 2D float statement) *)
+Theorem C12_on_node_branch_needs_bounded_grid :
+  exists (z d : float) (n : Z),
+         nleb (nofZ 0) z = true /\
+         nltb (nofZ 0) d = true /\ nleb z (nmul d (nofZ n)) = true /\ n < ntrunc (nround (ndiv z d)).
+Proof. exact @SafetySolveTools.trunc_round_div_range_F_needs_bound. Qed.
+
+(* 3D gradient bookkeeping invariant through every pass *)
+Theorem C12_sign_invariant_3d :
+  forall (T : Type) (H : Num T) (tt : arr T) (ttsgn : arr Z) (slow : arr T) (dz dx dy : T) 
+         (nz nx ny : Z) (grad : bool),
+       SafetySolve3d.tinv3 nz nx ny grad (tt, ttsgn) ->
+       SafetySolve3d.tinv3 nz nx ny grad (sweep3d tt ttsgn slow dz dx dy nz nx ny grad).
+Proof. exact @SafetySolve3d.sweep3d_preserves_tinv3. Qed.
+
+(* 3D gradient assembly reads in range under it *)
+Theorem C12_gradient_assembly_ok_3d :
+  forall (T : Type) (H : Num T) (dx dy dz : T) (grad : bool) (i j k nx ny nz : Z) (tt ttgrad : arr T)
+         (ttsgn : arr Z),
+       shape tt = [nz; nx; ny] ->
+       (grad = true -> SafetySolve3d.sgn_inv3 nz nx ny ttsgn /\ shape ttgrad = [nz; nx; ny; 3]) ->
+       fteik3d_p1_ok true false dx dy dz grad i j k nx ny nz tt ttgrad ttsgn = true.
+Proof. exact @SafetySolve3d.fteik3d_p1_ok_true. Qed.
+
 Print Assumptions C12_sweep_ok_2d.
 Print Assumptions C12_sweep2d_ok.
 Print Assumptions C12_sweep_ok_3d.
@@ -390,3 +465,11 @@ Print Assumptions C12_ray_ok_binary64_2d.
 Print Assumptions C12_ray_ok_binary64_3d.
 Print Assumptions C12_ray_axis_min_needed.
 Print Assumptions C12_ray_max_step_0_refuted.
+Print Assumptions C12_solve2d_ok.
+Print Assumptions C12_solve2d_ok_reals.
+Print Assumptions C12_solve3d_ok.
+Print Assumptions C12_solve3d_ok_binary64.
+Print Assumptions C12_trunc_div_law_binary64.
+Print Assumptions C12_on_node_branch_needs_bounded_grid.
+Print Assumptions C12_sign_invariant_3d.
+Print Assumptions C12_gradient_assembly_ok_3d.
